@@ -26,7 +26,7 @@ RULE = ('seeded dense sources with known structure (low rank + noise near the pe
 ASSUMPTIONS = ['the universal quantifier over inputs is sampled, not decided; what is enumerated exhaustively is the set of single '
                'primary-SVD failures of each decomposition',
                'numpy.linalg.svd is a correct SVD (it is the recovery path under test, its arithmetic is trusted)',
-               'fault-free vs fault run agreement is only asserted for generic (tie-free) spectra, with a tolerance scaled by ||A||/gap at the truncation points, and skipped where that gap (less twice the truncation error) is below 1e-3*||A||']
+               'fault-free vs fault run agreement is only asserted for generic (tie-free) spectra, with a tolerance scaled by ||A||/gap at the truncation points, and skipped where that gap (less twice the truncation error) is below 1e-3*||A|| or where the two runs chose different ranks (both satisfy the contract then)']
 REAL = ['torchtt.TT constructor, to_tt, mat_to_tt, rank_chop, SVD wrapper (working tree)', 'torch.linalg.svd', 'numpy.linalg.svd']
 STUB = ['the failure of torch.linalg.svd (raised by the harness at planned call indices)']
 
@@ -347,6 +347,11 @@ def exec_case(p, res, plans=None, rng=None):
                 out.append(core.violation(PROP, 'FAULT-CONTRACT', 'ttsvd', cf[0], 'under plan %s: %s' % (plan, cf[1]), desc))
             continue
         if generic and full0 is not None and c is None:
+            if gen.ints(xf.R) != gen.ints(x0.R):
+                # a rank decision at the threshold went the other way (singular values of the two backends differ in the
+                # last bits): both results satisfy the contract, checked above, and may differ by up to 2*eps*||A||
+                core.bump(stats, 'probe.agree_skipped_rank_decision_differs')
+                continue
             verdict, dd, tol = svdfault.agree_conditioned(gen.dense(xf), full0, gen.fro(A), p['dt'], A.reshape(full0.shape), p['N'], p['M'] if p.get('ttm') else None,
                                                           gen.ints(x0.R), gen.fro(full0 - A.reshape(full0.shape)))
             if verdict == 'ill-conditioned':
